@@ -27,7 +27,7 @@ from .core import Relation, err_kind
 PROP = "C06"
 CLAIMED = True
 COQ_MODULES = ["C06_Check", "C06_Proofs", "C06_Proofs2", "C06_Proofs3", "C06_Proofs4", "C06_Proofs5", "C06_Proofs6",
-               "C06_Proofs7", "C06_Proofs8", "C06_Proofs9", "C06_Proofs10", "C06_Proofs11", "C06_Proofs12"]
+               "C06_Proofs7", "C06_Proofs8", "C06_Proofs9", "C06_Proofs10", "C06_Proofs11", "C06_Proofs12", "C06_Proofs13"]
 PROPERTY_MODULE = "C06_Property"
 ALLOWED_AXIOMS = []
 RULE = (
@@ -35,7 +35,11 @@ RULE = (
     "0-3 inserted comment lines of the shapes '#', '# ', '#x', '#text', '# text', '#\\ttext', '#H', '#\\t' ...; "
     "non-trivial = at least one declaration or metadata line. read: files with 0-3 haplotypes, 0-2 repeats, 0-3 "
     "variants per haplotype, 0-3 str/int/float extras per line type, declared columns a permutation / superset / "
-    "subset of what the reader's classes request, sorted and shuffled line orders, plain and gzip, comment lines "
+    "subset of what the reader's classes request, declaration lines carrying any Python format (requested columns: "
+    "the class's own format or another of its type incl. e E g G n F, no letter, width / sign / alignment specs; "
+    "skipped columns: also x X b o c % and grouping), one case in twelve built so that every line type declares "
+    "skipped columns of such formats before and after the requested ones with (0.4) or without an order line; "
+    "sorted and shuffled line orders, plain and gzip, comment lines "
     "inserted anywhere; non-trivial = at least one record line and (an inserted comment or a bound extra); a quarter "
     "of the read cases re-use one Haplotypes object (read file A, then point it at file B with another header "
     "layout, or write over A and read again) and demand the result a fresh object gives for the file on disk; one "
@@ -43,7 +47,9 @@ RULE = (
     "roundtrip: generated collections written, read back (same classes or classes asking for fewer extras) and "
     "written again, after which the same reader object reads its own file and writes it a third time (second "
     "sub-case); extras of every format letter the package's classes use (s, d, f) with and without width / sign / "
-    "precision specs; integers incl. 2^31-1|2^31, 2^32-1|2^32, 2^63-1|2^63, 2^64, 10^18; floats at the rounding "
+    "precision specs and (30 %) of the other formats the annotated type's constructor reads back (str: no letter, "
+    "alignment, width, precision; int: no letter, n, sign, blank / zero fill, '_', '.0f'; float: e E g G n F, no "
+    "letter, precision .0 to .17, sign, '#', width, '_'); integers incl. 2^31-1|2^31, 2^32-1|2^32, 2^63-1|2^63, 2^64, 10^18; floats at the rounding "
     "boundaries of .0f-.3f, with exponents, signed zero, nan, inf; ids with non-ASCII characters; one case per run "
     "with 255|256|257 extras on one line type and one with a line of 1000..65537+ characters; non-trivial = at "
     "least one record. Distinct = distinct canonical JSON."
@@ -65,8 +71,14 @@ ASSUMPTIONS = [
     "format(parse(format(x))) = format(x) for the second write (hypothesis Forall2 same_toks_entry)",
     "binding: the header assigns each requested extra exactly one column (order line or declaration order without "
     "duplicates, not naming a mandatory field); record ids distinct",
-    "not generated: formats whose output Python's own parsers reject (zero-padded non-finite floats such as "
-    "format(nan, '08.3f') = '00000nan', thousands separators ',d')",
+    "formats: the reader converts by the class's ANNOTATED type (str / int / float), never by the declared format; a "
+    "requested extra is generated with any format whose output that type's constructor reads back (decimal notation). "
+    "Not generated for REQUESTED extras (declared only for skipped columns, where they must not matter): formats whose "
+    "output int() / float() do not read back - b o x X c, '%', ',' grouping, fill characters other than blank / 0, "
+    "'=' alignment with blanks, zero-padded non-finite floats (format(nan, '08.3f') = '00000nan') - the unchanged "
+    "writer writes them and the unchanged reader raises ValueError (loud) or, for digit-only b / o / x output such as "
+    "format(5, 'b') = '101', returns the decimal reading; and the largest doubles under a rounding e / g precision "
+    "(format(1.7976931348623157e308, '.3e') = '1.798e+308', which float() reads as inf): replaced by 0.5",
 ]
 
 LETTERS = "HVR"
@@ -403,7 +415,52 @@ def format_vals(cfg, t, vals):
 # generators
 
 
-def gen_cfg(rng, version, maxx=3, rich=True):
+# The reader converts a column with the ANNOTATED type of the class's dataclass field (get_type_hints: str / int /
+# float); the declared format is used by the writer alone ("{name:fmt}".format) and is never consulted on reading
+# (Extra._type is never set: the hook that would derive it from the format's last letter is not called).  So every
+# Python format spec that format() accepts for the annotated type may be declared; the value comes back up to the
+# format whenever the type's constructor reads format()'s output (decimal notation):
+#   str   : [[fill]align][width][.precision][s]                      (always)
+#   int   : [sign][0][width][_] + d / n / no letter; '.0f'           (fill: blank or 0)
+#   float : [sign][#][width][_][.precision] + e E f F g G n / no letter
+# Not read back by int() / float() - the unchanged writer writes them, the unchanged reader then raises ValueError or,
+# for digit-only outputs of b / o / x, returns the decimal reading: b o x X c, '%', ',' grouping, fill characters other
+# than blank / 0, '='-alignment with blanks, zero-padded nan / inf.  Such formats are declared only for columns the
+# reader does NOT ask for (FMT_UNREAD): there the format must not matter at all.
+FMT_OTHER = {
+    "s": ["", ">6", ".3", "^5", "10", "<3"],
+    "d": ["", "n", "5", "05", "+", " ", "_", ">10", "^9d", "+08d", ".0f"],
+    "f": ["e", "E", ".3e", ".2E", "+.2e", "12.3e", "<12.3e", " .3e", "g", "G", ".4g", "#.3g", "+g", "n", "", ".3", ".6",
+          ">10", "F", ".2F", "_f", ".0e", ".10e", ".17g"],
+}
+FMT_UNREAD = sorted(set(FMT_OTHER["s"] + FMT_OTHER["d"] + FMT_OTHER["f"]
+                        + ["x", "X", "b", "o", "c", "%", ".1%", ",d", ",.2f", "#x", "*>8d", "012.3e", "=+8d"]))
+
+
+def plain_fmt(f):
+    """a format of the letter families the package's own classes use"""
+    return f[-1:] in ("s", "d", "f")
+
+
+def codec_idem(v, spec):
+    """format(parse(format(v))) == format(v) for the value's own type (Python's codec law)"""
+    try:
+        t = format(v, spec)
+        return format(type(v)(t), spec) == t
+    except Exception:  # noqa
+        return False
+
+
+def safe_value(v, spec):
+    """the typed value, or a plain one where Python's own float() does not read format()'s output back to the same
+    text (the largest doubles under a rounding e / g precision: format(1.7976931348623157e308, '.3e') = '1.798e+308'
+    = inf for float())"""
+    if spec is None or codec_idem(from_tv(v), spec):
+        return v
+    return {"s": ["s", "a"], "d": ["d", 7], "f": ["f", (0.5).hex()]}[v[0]]
+
+
+def gen_cfg(rng, version, maxx=3, rich=True, other=0.3):
     cfg = {"version": version}
     for t in LETTERS:
         k = int(rng.choice([0, 0, 1, 2, maxx])) if rich else int(rng.choice([0, 1]))
@@ -411,7 +468,9 @@ def gen_cfg(rng, version, maxx=3, rich=True):
         extras, fields = [], []
         for n in names:
             ty = str(rng.choice(["s", "d", "f"]))
-            if ty == "s":
+            if rng.random() < other:
+                f = str(rng.choice(FMT_OTHER[ty]))
+            elif ty == "s":
                 f = "s" if rng.random() < 0.85 else str(rng.choice(["4s", ">6s", "<3s", "^5s", ".2s"]))
             elif ty == "d":
                 f = "d" if rng.random() < 0.8 else str(rng.choice(["03d", "5d", "+d", "_d", " d", "<4d"]))
@@ -476,10 +535,24 @@ COMMENTS_PURE = ["#", "# ", "#x", "#H", "#V", "#\t", "# a comment", "#text", "#\
                  "#  ", "#HV", "#Hx\tbeta\t.2f\t", "#X\tfoo\tbar\tbaz", "#\tversionX\t9.9.9", "#\torderX\ta", "# \torderH\tq",
                  "#\torder\tbeta", "#\tVersion\t9.0.0", "#h\tbeta\ts\td", "#\t\tversion\t9.0.0"]
 COMMENTS_IMPURE = ["#H\tfoo", "#H\t", "#V\ta\tb", "#\tversion\t0.2.0", "#\tversion\t1.0.0", "#\torderH\tzz",
-                   "#H\tzz\ts\tdesc", "#\tversion", "#\torderV", "#R\tw\td\t"]
+                   "#H\tzz\ts\tdesc", "#\tversion", "#\torderV", "#R\tw\td\t", "#H\tzz\t.3e\tdesc", "#H\tzq\t\tdesc",
+                   "#V\tzz\t.1%\t", "#R\tzz\tx\tflags"]
 
 
-def gen_header(rng, cfg, mal=0.15, drop=0.15):
+def decl_fmt(rng, cfg, t, n, ty, unread_other):
+    """the format a declaration line carries: for a requested field the class's own format or any other format of
+    its type (the file need not have been written by these classes); for a column nobody asked for, any format"""
+    own = [x[1] for x in cfg[t]["extras"] if x[0] == n]
+    if own:
+        if rng.random() < 0.6:
+            return own[0]
+        return str(rng.choice(FMT_OTHER[ty] + [{"s": "s", "d": "d", "f": ".2f"}[ty]]))
+    if rng.random() < unread_other:
+        return str(rng.choice(FMT_UNREAD))
+    return {"s": "s", "d": "d", "f": ".2f"}[ty]
+
+
+def gen_header(rng, cfg, mal=0.15, drop=0.15, order_p=0.8, spare_counts=(0, 0, 1, 2), unread_other=0.5):
     """Returns (header lines, {t: column names in the file's column order}, {t: {name: type}})."""
     lines = []
     cols, ctypes = {}, {}
@@ -498,7 +571,7 @@ def gen_header(rng, cfg, mal=0.15, drop=0.15):
         if names and rng.random() < drop:
             names = names[: int(rng.integers(0, len(names)))]
         spare = [n for n in NAME_POOL if n not in req]
-        for _ in range(int(rng.choice([0, 0, 1, 2]))):
+        for _ in range(int(rng.choice(list(spare_counts)))):
             n = str(rng.choice(spare))
             if n not in names:
                 names.append(n)
@@ -506,7 +579,7 @@ def gen_header(rng, cfg, mal=0.15, drop=0.15):
         types = {n: req.get(n, str(rng.choice(["s", "d", "f"]))) for n in names}
         decl = [names[i] for i in rng.permutation(len(names)).tolist()]
         order = list(names)
-        has_order = rng.random() < 0.8
+        has_order = rng.random() < order_p
         if rng.random() < mal and names:
             k = rng.random()
             if k < 0.3:
@@ -519,7 +592,7 @@ def gen_header(rng, cfg, mal=0.15, drop=0.15):
                 decl = decl + [decl[0]]
         for n in decl:
             desc = str(rng.choice(["", "desc", "Effect size"]))
-            ln = f"#{t}\t{n}\t" + {"s": "s", "d": "d", "f": ".2f"}[types[n]] + "\t" + desc
+            ln = f"#{t}\t{n}\t" + decl_fmt(rng, cfg, t, n, types[n], unread_other) + "\t" + desc
             if rng.random() < 0.04:
                 ln = f"#{t}\t{n}\td"  # too few fields: ignored as a declaration
             lines.append(ln)
@@ -544,7 +617,8 @@ def gen_token(rng, ty, bad=0.02):
     if ty == "d":
         return str(gen_int(rng))
     x = gen_float(rng)
-    return str(rng.choice([repr(x), format(x, ".2f"), format(x, ".3f"), str(int(x)) if x == x and abs(x) < 1e6 else repr(x)]))
+    return str(rng.choice([repr(x), format(x, ".2f"), format(x, ".3f"), str(int(x)) if x == x and abs(x) < 1e6 else repr(x),
+                           format(x, ".3e"), format(x, "g"), format(x, ".2E")]))
 
 
 def gen_records(rng, cfg, cols, ctypes, mal=0.1, bad=0.02):
@@ -673,6 +747,47 @@ def gen_wide_read(rng, ver, tier="quick", w=None):
 
 
 
+def gen_other_format_read(rng, ver):
+    """declared formats outside s / d / f: every line type's header declares one or two columns the reader did not ask
+    for, with any Python format ('.3e', 'g', 'x', '.1%', '', '>10' ...), before and after the requested ones, with
+    an order line (0.4) or in declaration order; the reader's own classes mostly use plain formats"""
+    cfg = gen_cfg(rng, ver, other=0.15)
+    if not any(cfg[t]["fields"] for t in "HV"):
+        cfg = gen_cfg(rng, ver, other=0.15)
+    hdr, cols, ctypes = gen_header(rng, cfg, mal=0.0, drop=0.0, order_p=0.4, spare_counts=(1, 1, 2), unread_other=0.9)
+    recs, ids = gen_records(rng, cfg, cols, ctypes, mal=0.0, bad=0.0)
+    return {"cfg": cfg, "lines": insert_comments(rng, hdr + recs, pool_impure=0.0), "sel": None,
+            "gz": bool(rng.random() < 0.15)}
+
+
+def header_format_classes(cfg, lines):
+    """coverage labels: which declaration shapes a header (list of texts) has"""
+    out = set()
+    decl = {t: [] for t in LETTERS}
+    has_order = set()
+    for x in lines:
+        if len(x) > 2 and x[0] == "#" and x[2] == "\t" and x[1] in LETTERS:
+            f = x[3:].split("\t")
+            if len(f) >= 3:
+                decl[x[1]].append((f[0], f[1]))
+        elif x.startswith("#\torder") and len(x) > 7 and x[7] in LETTERS:
+            has_order.add(x[7])
+        elif not x.startswith("#"):
+            break
+    for t in LETTERS:
+        req = {n for n, _ in cfg[t]["fields"]}
+        seen_other_unread = False
+        for n, f in decl[t]:
+            if not plain_fmt(f):
+                out.add("declared-format-outside-s-d-f" + ("-requested" if n in req else "-not-requested"))
+            if n in req and seen_other_unread:
+                out.add("unrequested-column-of-other-format-before-a-requested-one"
+                        + ("-order-line" if t in has_order else "-declaration-order"))
+            if n not in req and not plain_fmt(f):
+                seen_other_unread = True
+    return sorted(out)
+
+
 def current_version():
     from haptools.data.haplotypes import Haplotypes
 
@@ -741,6 +856,11 @@ class Header(_Base):
                     ls = [[x, False] for x in base]
                     ls.insert(pos, [c, True])
                     out.append({"cfg": cfg, "cv": True, "softly": softly, "lines": ls})
+        for f in FMT_UNREAD:
+            for softly in (True, False):
+                for name in ("beta", "pval"):
+                    ls = [[x, False] for x in base[:2]] + [[f"#H\t{name}\t{f}\td", False]]
+                    out.append({"cfg": cfg, "cv": True, "softly": softly, "lines": ls})
         return out
 
     def run_impl(self, inp):
@@ -787,6 +907,7 @@ class Header(_Base):
                f"inserted={sum(1 for _, i in inp['lines'] if i)}"]
         if short_hash_lines([x for x, _ in inp["lines"]]):
             out.append("has-short-hash-line")
+        out += header_format_classes(inp["cfg"], [x for x, _ in inp["lines"]])
         o = obs.get("all", {}) if isinstance(obs, dict) else {}
         if "err" in o:
             out.append(f"err{o['err']}")
@@ -867,6 +988,9 @@ class Read(_Base):
                 lines = [[x, False] for x in ha + ra]
             out[(j * 3 + 1) % len(out)] = {"cfg": cfg, "lines": lines, "sel": None, "gz": bool(rng.random() < 0.2),
                                            "prior": {"lines": ha + ra, "op": op}}
+        # declared formats outside s / d / f, for requested and for skipped columns
+        for j in range(max(6, n // 12) if out else 0):
+            out[(j * 3 + 2) % len(out)] = gen_other_format_read(rng, ver)
         # width-boundary stream: a header of 127..257 declared columns
         for j in range(min(1 if tier == "quick" else 6, len(out) // 4)):
             out[(3 * j) % len(out)] = gen_wide_read(rng, ver, tier)
@@ -890,6 +1014,20 @@ class Read(_Base):
                 ls.insert(p1, [c1, True])
                 ls.insert(p2, [c2, True])
                 out.append({"cfg": cfg, "lines": ls[:7], "sel": None, "gz": False})
+        # every format of FMT_UNREAD on a column the reader skips, declared before / after the requested one, with
+        # and without an order line
+        for f in FMT_UNREAD:
+            for before in (True, False):
+                for order in (True, False):
+                    d1, d2 = f"#H\tpval\t{f}\tp", "#H\tbeta\t.2f\td"
+                    hdr = ["#\tversion\t" + ver] + ([d1, d2] if before else [d2, d1])
+                    cols = ["pval", "beta"] if before else ["beta", "pval"]
+                    if order:
+                        cols = cols[::-1]
+                        hdr.append("#\torderH\t" + "\t".join(cols))
+                    toks = {"pval": "1.250e-08", "beta": "0.25"}
+                    rec = "H\t1\t10\t20\th1\t" + "\t".join(toks[c] for c in cols)
+                    out.append({"cfg": cfg, "lines": [[x, False] for x in hdr + [rec]], "sel": None, "gz": False})
         return out
 
     def run_impl(self, inp):
@@ -929,6 +1067,7 @@ class Read(_Base):
             out.append("subset-of-ids")
         if any(x.startswith("#\torder") and x.count("\t") > 100 for x in full):
             out.append("header-of-127..257-columns")
+        out += header_format_classes(inp["cfg"], full)
         if inp.get("prior"):
             out.append("reused-object-" + inp["prior"]["op"] if isinstance(obs, dict) and obs.get("reused")
                        else "reused-object-first-read-failed")
@@ -1022,13 +1161,13 @@ def gen_collection(rng, cfg, mal=0.0):
         ids.append(ident)
         a = gen_int(rng)
         vals = [["s", str(rng.choice(["1", "21", "chrX", gen_text(rng, True)]))], ["d", a], ["d", a + int(rng.integers(0, 50))], ["s", ident]]
-        vals += [gen_value(rng, ty) for _, ty in cfg[t]["fields"]]
+        vals += [safe_value(gen_value(rng, ty), fmt_spec(cfg, t, n)) for n, ty in cfg[t]["fields"]]
         vs = []
         if t == "H":
             for j in range(int(rng.choice([0, 1, 2, 3, 5]))):
                 p = gen_int(rng)
                 v = [["d", p], ["d", p + 1], ["s", str(rng.choice(["rs1", "21_1_A_G", gen_text(rng, True)]))], ["s", str(rng.choice(["A", "C", "G", "T"]))]]
-                v += [gen_value(rng, ty) for _, ty in cfg["V"]["fields"]]
+                v += [safe_value(gen_value(rng, ty), fmt_spec(cfg, "V", n)) for n, ty in cfg["V"]["fields"]]
                 vs.append(v)
         key = ident if rng.random() >= mal else ident + "k"
         ents.append([key, t, vals, vs])
@@ -1086,6 +1225,21 @@ class Roundtrip(_Base):
                         vs = [[["d", k], ["d", k + 1], ["s", f"v{k}"], ["s", "A"], ["d", k]] for k in range(nv)] if t == "H" else []
                         ents.append([ident, t, vals, vs])
                     out.append({"cfg": cfg, "rcfg": cfg, "same": True, "data": ents, "gz": False})
+        # every format outside the s / d / f families that the annotated type's constructor reads back
+        samples = {"s": ["YRI", "", "a b c d"], "d": [0, -5, 2**31, 1234567], "f": [0.25, 1.25e-08, -1234567.5, float("nan")]}
+        for ty in "sdf":
+            for f in FMT_OTHER[ty]:
+                cfg = {"version": ver, "H": {"fields": [["x1", ty], ["beta", "f"]], "extras": [["x1", f, "d"], ["beta", ".2f", ""]]},
+                       "V": {"fields": [["w", ty]], "extras": [["w", f, ""]]}, "R": {"fields": [], "extras": []}}
+                rcfg = {"version": ver, "H": {"fields": [["beta", "f"]], "extras": [["beta", ".2f", ""]]},
+                        "V": {"fields": [["w", ty]], "extras": [["w", f, ""]]}, "R": {"fields": [], "extras": []}}
+                ents = []
+                for j, x in enumerate(samples[ty]):
+                    v = ["f", x.hex()] if ty == "f" else [ty, x]
+                    ents.append([f"h{j}", "H", [["s", "1"], ["d", j], ["d", j + 5], ["s", f"h{j}"], v, ["f", (0.5).hex()]],
+                                 [[["d", j], ["d", j + 1], ["s", "v"], ["s", "A"], v]]])
+                out.append({"cfg": cfg, "rcfg": cfg, "same": True, "data": ents, "gz": False})
+                out.append({"cfg": cfg, "rcfg": rcfg, "same": False, "data": ents, "gz": False})
         return out
 
     def run_impl(self, inp):
@@ -1231,7 +1385,7 @@ class Roundtrip(_Base):
         for t in LETTERS:
             if any(e[1] == t for e in inp["data"]) or (t == "V" and any(e[3] for e in inp["data"])):
                 for _, f, _ in inp["cfg"][t]["extras"]:
-                    out.append("format-" + f[-1] + ("" if len(f) == 1 else "-with-spec"))
+                    out.append("format-" + (f[-1] if f and f[-1].isalpha() else "no-letter") + ("" if len(f) <= 1 else "-with-spec"))
         for k in ("bytes1", "read", "bytes2"):
             if isinstance(obs, dict) and "err" in obs.get(k, {}):
                 out.append(f"{k}-err{obs[k]['err']}")
@@ -1248,6 +1402,9 @@ class Roundtrip(_Base):
             yield dict(inp, gz=False)
 
     def signature(self, inp, obs):
+        if isinstance(obs, dict) and "__exc__" in obs:
+            return (f"roundtrip: {obs['__exc__']} before anything is written (declaring the classes with their extras / "
+                    f"building the records): {str(obs.get('msg', ''))[:80]}")
         for k in ("bytes1", "read", "bytes2"):
             if isinstance(obs, dict) and "err" in obs.get(k, {}):
                 return f"roundtrip {k} raises {obs[k].get('cls', obs[k]['err'])}"
@@ -1269,7 +1426,10 @@ LEVEL_TEXT = (
     "report (also for a file without record lines); version strings int() cannot parse are never accepted; for every "
     "accepted header the types dict of a line type is the reordering by the columns the header gives it "
     "(C06_types_follow_header), so every requested extra field is read from the column its name has in the order line "
-    "(or declaration order) and unrequested columns are skipped without shifting others; expected-but-undeclared extras "
+    "(or declaration order) and unrequested columns are skipped without shifting others; a declaration line counts for "
+    "its line type and field name alone - files that differ in the formats / descriptions of their declaration lines "
+    "(s, .2f, .3e, g, %, x, empty ...) are read identically, exceptions included (C06_declared_format_irrelevant_read; "
+    "the reader converts by the class's annotated type); expected-but-undeclared extras "
     "are reported; WHOLE FILES: for every collection of haplotypes, repeats and variants and every extra-field "
     "configuration, read (to_str d) returns d's records in order with their field values and variants and no warning "
     "(C06_hap_roundtrip), also for a reader asking for any sub-selection of the extras (C06_hap_roundtrip_subreader), "
